@@ -158,9 +158,6 @@ def contract(case):
         return "src tokens of the diff list are not the tokens of the first text"
     if dst != tokens(case["b"]):
         return "dst tokens of the diff list are not the tokens of the second text"
-    for (o1, _), (o2, _) in zip(tok, tok[1:]):
-        if o1 == -1 and o2 == -1:
-            return "two consecutive deletions"
     if case["a"] == case["b"] and any(op != 0 for op, _ in tok):
         return "identical texts but non-equal diff entries"
     return None
@@ -238,6 +235,8 @@ def gen_pairs(tier, seed):
 
 
 CORPUS = [
+    ("snake_case snake_case | snake_case beta, 42(alpha 42 42 snake_case\tsnake_case, 42 | snake_case-",
+     "naïvesnake_case snake_case | snake_case beta\t 42(alpha 42 42snake_case, 42 |deltasnake_case-"),
     ("Hello world", "Hello big world"),
     ("Contract", "Big Contract"),
     ("a b", "x a b"),
@@ -331,7 +330,7 @@ def run(tier, seed, driver_ok):
         "input_distribution": dist,
         "assumptions": [
             "diff-match-patch is a parameter of the model: its output satisfies src=first text, dst=second text, "
-            "token-wise entries, no two consecutive deletions (monitored on every case of this run: "
+            "token-wise entries (monitored on every case of this run: "
             f"{contract_breaks} breaks)",
             "Python's re tokenisation (\\s+|\\w+|[^\\w\\s]) is used by both the implementation and the oracle",
         ],
